@@ -94,3 +94,16 @@ GHOST = {}
 def ghost(name, *args):
     """native meaning of a ghost function: supplied by the replay harness"""
     return GHOST[name](*args)
+
+
+def recursive(fn):
+    """A spec function defined by well-founded recursion (it must terminate natively).
+    pyvc: an uninterpreted function whose defining equation is assumed, unfolded
+    once, at every application occurring in the proof."""
+    return fn
+
+
+def uninterpreted(fn):
+    """A spec function pyvc treats as an uninterpreted function of its arguments
+    (natively its body runs): for facts outside the verified subset (AST resolution)."""
+    return fn
